@@ -183,6 +183,10 @@ def match_known(prop, sig):
 
 
 def write_evidence(prop, tier, seed, level, coverage, assumptions, wall, violations):
+    if os.environ.get("VERIF_DEV_SKIP_MC") or os.environ.get("VERIF_NO_EVIDENCE"):
+        # development runs (model checking skipped, seeded changes applied to /repo) never
+        # touch the evidence files
+        return
     os.makedirs(os.path.join(VERIF, "evidence"), exist_ok=True)
     ev = dict(property_id=prop, tier=tier, seed=int(seed), level=level, coverage=coverage,
               assumptions=assumptions, wall_s=round(wall, 2), violations=int(violations))
